@@ -257,7 +257,7 @@ fn arb_ingredients() -> impl Strategy<Value = Ingredients> {
             0..8,
         ),
         prop::collection::vec(any::<u8>(), 0..3),
-        prop::option::weighted(0.8, (0u64..4_000_000_000, 0u32..1_000_000_000)),
+        prop::option::weighted(0.8, (prop_oneof![6 => 0u64..4_000_000_000, 1 => 4_000_000_000u64..253_402_300_800, 1 => Just(1u64 << 40), 1 => Just(0u64)], prop_oneof![4 => 0u32..1_000_000_000, 1 => Just(999_999_999u32), 1 => Just(999_999u32), 1 => Just(1_000_000u32)])),
     );
     let orderpart = (
         prop::collection::vec(any::<u16>(), 8..24),
